@@ -315,6 +315,18 @@ def harr_check(ctx, props, focus, replay=None):
     nb += run_histories(ctx, exe, ex, 'exhaustive')
     if focus == 'C07':
         harr_tiny_ctor(ctx, exe, 'impl-vs-spec', False)
+        # tables with more slots than a short can index (the link and index fields are ints): self-checking fill / census / read-back /
+        # delete / refill / relocate inside the harness, no model in lockstep (the theorems are for every capacity; this is a search input)
+        bigs = ['big 33000 150', 'big 40000 150'] + ([] if quick else ['big 40000 33', 'big 70000 300', 'big 66000 1'])
+        rc, o, e = ctx.run([exe], inp=('\n'.join(bigs) + '\n').encode(), timeout=1500)
+        bl = o.decode('latin1').splitlines()
+        for k, b in enumerate(bigs):
+            line = bl[k] if k < len(bl) else 'big CRASH (process died)'
+            ctx.cov['evaluations'] += 1
+            ctx.count('large-table')
+            if line != 'big ok':
+                ctx.report('impl-vs-spec', {'op': 'large-table', 'observed': 'crash' if ('CRASH' in line or 'TIMEOUT' in line) else 'image-or-contents-wrong'},
+                           'static hash table with %s slots: %s' % (b.split()[1], line[4:200]), {'ops': [b], 'impl': line})
         # (b) the image must be a function of the operation history alone: same history, two different stack paintings
         sub = [(hdr, [x for o2 in ops for x in ((o2, 'raw') if o2.split()[0] in ('put', 'del', 'delidx', 'clear') else (o2,))]) for hdr, ops in hists[:30 if quick else 200]]
         lines = []
